@@ -197,7 +197,13 @@ func (w *World) asyncOracle(where string) {
 func (w *World) finalOracles() {
 	// C07: the kernel's ledger is exact
 	for _, ev := range w.k.Ledger {
-		w.violate("C07", ev.Kind+"/"+ev.Call, "%s (task %s)", ev.Msg, ev.Task)
+		key := ev.Kind + "/" + ev.Call
+		if ev.Kind == "foreign-descriptor" && ev.Call == "write" && ev.Was == "eventfd" {
+			// the wake-up write of Poller.Trigger after the poller was closed, the number
+			// re-used meanwhile: the known use-after-close/write finding with a new owner
+			key += "-after-eventfd"
+		}
+		w.violate("C07", key, "%s (task %s)", ev.Msg, ev.Task)
 		break
 	}
 	for _, cs := range w.conns {
